@@ -314,8 +314,10 @@ class Ctx:
         cov.setdefault("tlc_runs", self.tlc_runs)
         cov.setdefault("known_findings_seen", self.known_seen)
         cov.setdefault("repo", REPO)
-        os.makedirs(os.path.join(VERIF, "evidence"), exist_ok=True)
-        path = os.path.join(VERIF, "evidence", self.pid + ".json")
+        # evidence/ describes /repo itself; a run against another tree (VERIF_REPO, e.g. a mutant worktree) writes elsewhere
+        edir = os.path.join(VERIF, "evidence") if os.path.realpath(REPO) == "/repo" else os.path.join(VERIF, ".scratch", "evidence-other-tree")
+        os.makedirs(edir, exist_ok=True)
+        path = os.path.join(edir, self.pid + ".json")
         tmp = path + ".tmp%d" % os.getpid()
         with open(tmp, "w") as f:
             json.dump(d, f, indent=1, default=str)
